@@ -248,6 +248,21 @@ func (r *c25Run) readAll(st c25Step, where string) {
 	}
 }
 
+// liveOnly splits the ids yielded by an iteration into those of live chunks and those of chunks whose
+// file the model has truncated (the code may legitimately keep more files than the model).
+func (r *c25Run) liveOnly(ids []int) (live, extra []int) {
+	for _, id := range ids {
+		if r.lost[id] {
+			extra = append(extra, id)
+		} else {
+			live = append(live, id)
+		}
+	}
+	return live, extra
+}
+
+func (r *c25Run) live(ids []int) []int { l, _ := r.liveOnly(ids); return l }
+
 func c25Eq(a, b []int) bool {
 	if len(a) != len(b) {
 		return false
@@ -360,6 +375,7 @@ func (r *c25Run) tornSweep(t c25Torn, where string) {
 			continue
 		}
 		ids, bad, ierr := r.iterate(cdm)
+		ids, _ = r.liveOnly(ids)
 		got := c25ErrClass(ierr)
 		if !c25Eq(ids, want.Iter) || got != want.Err || len(bad) > 0 {
 			r.fail("violation", "torn-tail", fmt.Sprintf("%s: newest file cut at offset %d (%s): iteration yields %v err=%s %v; expected %v err=%s", where, o, cls, ids, got, bad, want.Iter, want.Err))
@@ -367,7 +383,7 @@ func (r *c25Run) tornSweep(t c25Torn, where string) {
 			// the repair path: delete the corrupted file, the earlier files must still iterate completely
 			if derr := cdm.DeleteCorrupted(ierr); derr != nil {
 				r.fail("violation", "torn-repair", fmt.Sprintf("%s: offset %d: DeleteCorrupted: %v", where, o, derr))
-			} else if ids2, bad2, err2 := r.iterate(cdm); err2 != nil || !c25Eq(ids2, t.NoMagic) || len(bad2) > 0 {
+			} else if ids2, bad2, err2 := r.iterate(cdm); err2 != nil || !c25Eq(r.live(ids2), t.NoMagic) || len(bad2) > 0 {
 				r.fail("violation", "torn-repair", fmt.Sprintf("%s: offset %d: after DeleteCorrupted iteration yields %v err=%v %v; expected %v", where, o, ids2, err2, bad2, t.NoMagic))
 			}
 		}
@@ -472,6 +488,11 @@ func (r *c25Run) replay(b c25Beh) {
 				return
 			}
 			ids, bad, err := r.iterate(r.cdm)
+			ids, extra := r.liveOnly(ids)
+			if len(extra) > 0 {
+				// files the model considers truncated are still there: the property allows keeping more
+				r.fail("drift", "", fmt.Sprintf("%s: iteration also yields chunks %v of files the model has truncated", where, extra))
+			}
 			if err != nil || !c25Eq(ids, st.Iter) || len(bad) > 0 {
 				if st.KF {
 					r.fail("violation", "kf1-cut-sequence-mismatch", fmt.Sprintf("%s: after restart iteration yields %v err=%v %v; written and not truncated: %v", where, ids, err, bad, st.Iter))
